@@ -150,16 +150,23 @@ func H_C07_np_splice() {
 	verif.Reach("monitor: splice parsed")
 	// the lexer runs in its own goroutine. Scheduling: run-until-blocked or yield-at-every-channel-operation
 	// (the two extreme policies); thorough: for strings up to length 2 every interleaving of the channel operations
+	allSchedules := false
 	switch verif.Choice("schedule", 2) {
 	case 1:
 		if verif.Tier() > 0 && l <= 2 {
 			verif.ScheduleAll(true)
+			allSchedules = true
 		} else {
 			verif.ScheduleEager(true)
 		}
 	}
 	verif.NoPanic("C07/varexp setting panics", func() {
-		c, err := ucfg.NewFrom(map[string]interface{}{"a": "x", "e": "", "v": s, "n": "${${e}}"}, opts...)
+		in := map[string]interface{}{"a": "x", "e": "", "v": s, "n": "${${e}}"}
+		if allSchedules {
+			// (every further lexer run multiplies the interleavings: only the string under test)
+			in = map[string]interface{}{"v": s}
+		}
+		c, err := ucfg.NewFrom(in, opts...)
 		if err == nil {
 			c.String("v", -1, opts...)
 			c.String("n", -1, opts...)
